@@ -53,51 +53,61 @@ conv_total!(c10_conversion_info_total_len1, 1, 4);
 /// C10 (authenticity mechanism "domain + origin + metadata as HPKE info"): `to_enc_bytes` is exactly
 ///   DOMAIN ++ HELPER_ORIGIN ++ site-domain bytes (unchanged) ++ key_id ++ timestamp ++ epsilon ++ sensitivity (big endian),
 /// so two conversion infos that differ in any metadata bit have different HPKE info strings (injective layout for a
-/// fixed site-domain length). BOUNDED: site domains of 0..=3 ASCII bytes (symbolic contents).
-#[kani::proof]
-#[kani::unwind(40)]
-fn c10_conversion_info_enc_bytes_layout() {
-    let n: usize = kani::any();
-    kani::assume(n <= 3);
-    let site: [u8; 3] = kani::any();
-    kani::assume(site[0] < 0x80 && site[1] < 0x80 && site[2] < 0x80);
-    // ASCII by the assumption above, so the unchecked constructor is sound (String::from_utf8's validation loop costs
-    // CBMC minutes, see the units above)
-    let domain = unsafe { String::from_utf8_unchecked(site[..n].to_vec()) };
-    let info = HybridConversionInfo {
-        key_id: kani::any(),
-        conversion_site_domain: domain,
-        timestamp: kani::any(),
-        epsilon: kani::any(),
-        sensitivity: kani::any(),
+/// fixed site-domain length). BOUNDED: site domains of exactly N ASCII bytes (symbolic contents), N concrete per unit
+/// (a symbolic length exhausts 26 GB once the function does any extra allocation).
+macro_rules! enc_bytes_layout {
+    ($name:ident, $n:expr) => {
+        #[kani::proof]
+        #[kani::unwind(40)]
+        fn $name() {
+            const N: usize = $n;
+            let site: [u8; N] = kani::any();
+            let mut k = 0;
+            while k < N {
+                kani::assume(site[k] < 0x80);
+                k += 1;
+            }
+            // ASCII by the assumption above, so the unchecked constructor is sound (String::from_utf8's validation
+            // loop costs CBMC minutes, see the units above)
+            let domain = unsafe { String::from_utf8_unchecked(site.to_vec()) };
+            let info = HybridConversionInfo {
+                key_id: kani::any(),
+                conversion_site_domain: domain,
+                timestamp: kani::any(),
+                epsilon: kani::any(),
+                sensitivity: kani::any(),
+            };
+            kani::cover!(site[0] == b'M');
+            kani::cover!(site[0] == b'm');
+            let out = info.to_enc_bytes();
+            let p = DOMAIN.len() + HELPER_ORIGIN.len();
+            assert!(out.len() == p + N + 1 + 24);
+            let i: usize = kani::any();
+            kani::assume(i < out.len());
+            let ts = info.timestamp.to_be_bytes();
+            let ep = info.epsilon.to_be_bytes();
+            let se = info.sensitivity.to_be_bytes();
+            let expect = if i < DOMAIN.len() {
+                DOMAIN.as_bytes()[i]
+            } else if i < p {
+                HELPER_ORIGIN.as_bytes()[i - DOMAIN.len()]
+            } else if i < p + N {
+                site[i - p]
+            } else if i == p + N {
+                info.key_id
+            } else if i < p + N + 9 {
+                ts[i - p - N - 1]
+            } else if i < p + N + 17 {
+                ep[i - p - N - 9]
+            } else {
+                se[i - p - N - 17]
+            };
+            assert!(out[i] == expect);
+        }
     };
-    kani::cover!(n == 3 && site[0] == b'M');
-    kani::cover!(n == 0);
-    let out = info.to_enc_bytes();
-    let p = DOMAIN.len() + HELPER_ORIGIN.len();
-    assert!(out.len() == p + n + 1 + 24);
-    let i: usize = kani::any();
-    kani::assume(i < out.len());
-    let ts = info.timestamp.to_be_bytes();
-    let ep = info.epsilon.to_be_bytes();
-    let se = info.sensitivity.to_be_bytes();
-    let expect = if i < DOMAIN.len() {
-        DOMAIN.as_bytes()[i]
-    } else if i < p {
-        HELPER_ORIGIN.as_bytes()[i - DOMAIN.len()]
-    } else if i < p + n {
-        site[i - p]
-    } else if i == p + n {
-        info.key_id
-    } else if i < p + n + 9 {
-        ts[i - p - n - 1]
-    } else if i < p + n + 17 {
-        ep[i - p - n - 9]
-    } else {
-        se[i - p - n - 17]
-    };
-    assert!(out[i] == expect);
 }
+enc_bytes_layout!(c10_conversion_info_enc_bytes_layout_n1, 1);
+enc_bytes_layout!(c10_conversion_info_enc_bytes_layout_n2, 2);
 
 #[cfg(test)]
 include!(concat!(env!("IPA_VERIF_DIR"), "/.build/playback/report_hybrid_info.rs"));
